@@ -118,7 +118,7 @@ pub fn run(ctx: &Ctx) -> i32 {
         };
     }
     let tier = ctx.tier;
-    let nrand: u32 = tier.pick(6, 40);
+    let nrand: u32 = tier.pick(6, 120);
     // shards = (area 0-7, on-chip RAM = 8) x width
     let stats = par_shards(ctx, 18, |shard| {
         let mut emu = Emu::new(&ctx.base);
@@ -217,7 +217,7 @@ pub fn run(ctx: &Ctx) -> i32 {
         // space (whose results are checked only where the statement defines them). Catches costs that follow a
         // setting only when something else changes too, or that depend on what was costed before.
         if stats.failures.is_empty() {
-            let steps: u32 = tier.pick(300_000, 5_000_000);
+            let steps: u32 = tier.pick(300_000, 60_000_000);
             let mut cfg = BusCfg::ZERO;
             let any32 = any::<u32>();
             for _ in 0..steps {
